@@ -888,8 +888,9 @@ MANIFEST = dict(
          "on array-valued levels (ndarray and list); every scalar "
          "forward conversion again with an absolute and a relative uncertainty attached, with the target given as a "
          "BaseUnits / Quantity object, and with the source built as x*Unit().<u> after an in-place conversion of the bare "
-         "attribute; augmented assignments a+=b, a-=b; array conversions asked twice. "
-         "45 422 cases per quick run, 116 196 in the thorough tier, every one executed.",
+         "attribute; augmented assignments a+=b, a-=b; array conversions asked twice; fraction forms whose linear parts "
+         "carry factors (W/cm2, mW/MHz ...); undocumented level pairs: a refused conversion must leave the quantity intact. "
+         "46 490 cases per quick run, 117 584 in the thorough tier, every one executed.",
     note="Numerical agreement to 1e-9 relative (identity 1e-12), not bit-exact; magnitudes are a finite alphabet of "
          "representatives, other magnitudes rely on the formulas being value-independent; prefix `da`, undocumented "
          "level pairs and compound expressions beyond X/Hz are outside the alphabet; oracle formulas are hand-written "
